@@ -65,14 +65,14 @@ func (a *Account) clone(sh *Shard) *Account {
 }
 
 // vmcommon.UserAccountHandler
-func (a *Account) GetCodeMetadata() []byte                        { return cp(a.CodeMeta) }
-func (a *Account) GetCodeHash() []byte                            { return nil }
-func (a *Account) GetRootHash() []byte                            { return nil }
+func (a *Account) GetCodeMetadata() []byte                         { return cp(a.CodeMeta) }
+func (a *Account) GetCodeHash() []byte                             { return nil }
+func (a *Account) GetRootHash() []byte                             { return nil }
 func (a *Account) AccountDataHandler() vmcommon.AccountDataHandler { return a }
-func (a *Account) AddressBytes() []byte                           { return cp(a.Addr) }
-func (a *Account) IncreaseNonce(uint64)                           {}
-func (a *Account) GetNonce() uint64                               { return 0 }
-func (a *Account) IsInterfaceNil() bool                           { return a == nil }
+func (a *Account) AddressBytes() []byte                            { return cp(a.Addr) }
+func (a *Account) IncreaseNonce(uint64)                            {}
+func (a *Account) GetNonce() uint64                                { return 0 }
+func (a *Account) IsInterfaceNil() bool                            { return a == nil }
 
 func (a *Account) GetBalance() *big.Int {
 	a.mu.Lock()
@@ -297,12 +297,12 @@ func computeShard(addr []byte, n uint32) uint32 {
 	}
 	return uint32(addr[len(addr)-1]) % n
 }
-func (c *coordinator) NumberOfShards() uint32               { return c.n }
-func (c *coordinator) ComputeId(a []byte) uint32            { return computeShard(a, c.n) }
-func (c *coordinator) SelfId() uint32                       { return c.self }
-func (c *coordinator) SameShard(a, b []byte) bool           { return c.ComputeId(a) == c.ComputeId(b) }
+func (c *coordinator) NumberOfShards() uint32                { return c.n }
+func (c *coordinator) ComputeId(a []byte) uint32             { return computeShard(a, c.n) }
+func (c *coordinator) SelfId() uint32                        { return c.self }
+func (c *coordinator) SameShard(a, b []byte) bool            { return c.ComputeId(a) == c.ComputeId(b) }
 func (c *coordinator) CommunicationIdentifier(uint32) string { return "" }
-func (c *coordinator) IsInterfaceNil() bool                 { return c == nil }
+func (c *coordinator) IsInterfaceNil() bool                  { return c == nil }
 
 // vmcommon.PayableHandler
 type payOracle struct{ sh *Shard }
@@ -352,15 +352,15 @@ func (s *Shard) GetExistingAccount(addr []byte) (vmcommon.AccountHandler, error)
 	return s.LoadAccount(addr)
 }
 func (s *Shard) SaveAccount(vmcommon.AccountHandler) error { return s.dep("save-account") }
-func (s *Shard) RemoveAccount([]byte) error               { return nil }
-func (s *Shard) Commit() ([]byte, error)                  { return nil, nil }
-func (s *Shard) JournalLen() int                          { return 0 }
-func (s *Shard) RevertToSnapshot(int) error               { return nil }
-func (s *Shard) GetNumCheckpoints() uint32                { return 0 }
-func (s *Shard) GetCode([]byte) []byte                    { return nil }
-func (s *Shard) RootHash() ([]byte, error)                { return nil, nil }
-func (s *Shard) RecreateTrie([]byte) error                { return nil }
-func (s *Shard) IsInterfaceNil() bool                     { return s == nil }
+func (s *Shard) RemoveAccount([]byte) error                { return nil }
+func (s *Shard) Commit() ([]byte, error)                   { return nil, nil }
+func (s *Shard) JournalLen() int                           { return 0 }
+func (s *Shard) RevertToSnapshot(int) error                { return nil }
+func (s *Shard) GetNumCheckpoints() uint32                 { return 0 }
+func (s *Shard) GetCode([]byte) []byte                     { return nil }
+func (s *Shard) RootHash() ([]byte, error)                 { return nil, nil }
+func (s *Shard) RecreateTrie([]byte) error                 { return nil }
+func (s *Shard) IsInterfaceNil() bool                      { return s == nil }
 
 func copyGas(g map[string]map[string]uint64) map[string]map[string]uint64 {
 	out := map[string]map[string]uint64{}
@@ -480,7 +480,7 @@ type Call struct {
 	CallType  int    `json:"call_type,omitempty"`
 	CallValue int    `json:"call_value,omitempty"` // 0 -> 0, 1 -> 1, 2 -> 2^70
 	RetErr    bool   `json:"return_after_error,omitempty"`
-	MsgID     int    `json:"msg,omitempty"`  // >0: this call delivers in-flight message #MsgID (N3-N5)
+	MsgID     int    `json:"msg,omitempty"`       // >0: this call delivers in-flight message #MsgID (N3-N5)
 	Redeliver bool   `json:"redeliver,omitempty"` // immediate re-delivery of a hand-over message (N6)
 }
 
@@ -507,16 +507,16 @@ type DiffEntry struct {
 }
 
 type Result struct {
-	Out      *vmcommon.VMOutput
-	Err      error
-	Panic    interface{}
-	Stack    string
-	Alloc    uint64
-	Diff     []DiffEntry
-	InputMut string // non-empty: how the call modified its input
-	ArgsAfter [][]byte // the argument list as the input structure holds it AFTER the call (a node re-reads it)
-	Deps     map[string]int
-	FaultHit bool
+	Out                *vmcommon.VMOutput
+	Err                error
+	Panic              interface{}
+	Stack              string
+	Alloc              uint64
+	Diff               []DiffEntry
+	InputMut           string   // non-empty: how the call modified its input
+	ArgsAfter          [][]byte // the argument list as the input structure holds it AFTER the call (a node re-reads it)
+	Deps               map[string]int
+	FaultHit           bool
 	OtherShardsTouched bool
 }
 
